@@ -20,16 +20,19 @@ import random
 
 from .. import common, identlib, seriallib
 from ..gen import edits
-from ..translate import serialflags
+from ..translate import serialflags, serialkeys
 
 PROP = "C12"
-MODULES = ["XpmVerif.Properties.C12"]
+MODULES = ["XpmVerif.Properties.C12", "XpmVerif.Properties.C12Source"]
 seriallib.install_local_findings(PROP)
 
 
 def prove(ctx):
-    msgs = [serialflags.generate(common.REPO, common.LEAN)]
+    msgs = [serialflags.generate(common.REPO, common.LEAN), serialkeys.generate(common.REPO, common.LEAN)]
     ctx.notes.append(f"translator(serialflags): {msgs[0][1]}")
+    ctx.notes.append(f"translator(serialkeys): {msgs[1][1]}")
+    comps = serialkeys.components(common.REPO)
+    ctx.extra_cov["translator_components"] = {"translated": [n for n, ok, _ in comps if ok], "untranslated": [n for n, ok, _ in comps if not ok]}
     common.check_proofs(ctx, MODULES, translate_msgs=msgs)
 
 
